@@ -4,7 +4,7 @@
    An event list is any sequence of Ensure passes, handler completions and restarts (ERestart anywhere, any number). *)
 From Coq Require Import List NArith Bool.
 Import ListNotations.
-Require Import V.models.Restart V.proofs.RestartProofs.
+Require Import V.lib.Bytes V.models.Restart V.gen.UnlockOrder V.proofs.RestartProofs V.proofs.RestartTieProofs.
 Open Scope N_scope.
 
 (* a handler phase recorded as finished is never started again: once a task has left Do/Doing (rank >= 2: Done, Abort,
@@ -60,6 +60,35 @@ Theorem C04_same_outcome_parallel_refuted :
   statuses (settle 16 c (restart (iter 2 c (init g)))) <> statuses (settle 16 c (init g)).
 Proof. exact same_outcome_abort_refuted. Qed.
 Print Assumptions C04_same_outcome_parallel_refuted.
+
+(* ---- the persistence assumption: checkpoints are atomic with respect to state mutations and totally ordered.
+   [restart] above reloads the in-memory task list; that is justified exactly when the store holds the payload of the last
+   unlock. C04_store_is_memory: in the model with an explicit store, for every history of runner steps (each followed by its
+   checkpoint) and crashes WITHOUT stale writes, the store always equals the in-memory task list and the history is the
+   runner model's history with ERestart for every crash - so every theorem above applies to crashes. *)
+Theorem C04_store_is_memory : forall c evs w, no_stale evs = true -> w_disk w = tasks (w_mem w) ->
+  w_disk (wrun c w evs) = tasks (w_mem (wrun c w evs)) /\
+  w_mem (wrun c w evs) = run_events c (w_mem w) (flat_map erase evs).
+Proof. exact store_is_memory. Qed.
+Print Assumptions C04_store_is_memory.
+
+(* ... and the hypothesis is needed: one stale write (the older payload, task 1 Doing, completing after the newer one, task 1
+   Done - a checkpoint written outside the state lock) and a crash, and the finished task is run again *)
+Theorem C04_stale_checkpoint_refuted :
+  let c := mkCfg [] [] in let w0 := mkW (init [(1, [])]) (tasks (init [(1, [])])) in
+  let w2 := wrun c w0 [WStep EEnsure; WStep (EFinish 1)] in
+  let wf := wrun c w2 [WStale (tasks (w_mem (wrun c w0 [WStep EEnsure]))); WCrash; WStep EEnsure] in
+  status_of (tasks (w_mem w2)) 1 = 4 /\ count 1 false (log (w_mem w2)) = 1 /\ count 1 false (log (w_mem wf)) = 2.
+Proof. exact stale_checkpoint_redoes_work. Qed.
+Print Assumptions C04_stale_checkpoint_refuted.
+
+(* the hypothesis is tied to the code twice: (T) over the step list of State.Unlock regenerated from overlord/state/state.go
+   on every run: the data is marshalled and the checkpoint written before the state lock is released (a deferred unlock, no
+   other unlock before the last Checkpoint call, no goroutine); (C) the second driver observes on the real Unlock that the
+   lock is held during every Checkpoint call and that writes complete in unlock order *)
+Theorem C04_checkpoint_written_under_lock : checkpoint_under_lock unlock_steps = true.
+Proof. exact unlock_writes_under_lock. Qed.
+Print Assumptions C04_checkpoint_written_under_lock.
 
 (* non-vacuity: a chain of three tasks whose last do handler fails, restarted after five steps: the first task is Done
    at that point, is not done again, and everything ends undone *)
